@@ -53,9 +53,18 @@ fn topologies() -> Vec<Topology> {
 }
 
 fn strat(w: CWeights, min_ops: usize, max_ops: usize) -> impl Strategy<Value = Case> {
-	(world_spec(topologies()), proptest::bool::weighted(0.7), proptest::collection::vec(cop_strategy(w), min_ops..max_ops), proptest::collection::vec(proptest::bool::weighted(0.75), 1..6)).prop_map(
-		|(mut spec, roomy, ops, resolutions)| {
-			if roomy {
+	(
+		world_spec(topologies()),
+		proptest::bool::weighted(0.7),
+		proptest::collection::vec(cop_strategy(w), min_ops..max_ops),
+		proptest::collection::vec(proptest::bool::weighted(0.75), 1..6),
+		// one case in twelve starts with two forwards that arrive over B's two parallel channels and leave over
+		// the same third channel, are fulfilled back to back with both inbound preimage updates in flight, and
+		// only one of those updates is completed before the generated operations continue
+		(proptest::bool::weighted(0.085), 15_000_000u64..40_000_000, 15_000_000u64..40_000_000, 1u8..3, 1u8..4, any::<u16>()),
+	)
+		.prop_map(|(mut spec, roomy, ops, resolutions, (two, a1, a2, k1, k2, which))| {
+			if roomy || two {
 				// most worlds leave room for forwarding; the rest keep the tight generated limits (refusals)
 				spec.dust_exposure_fixed_msat = None;
 				spec.dust_exposure_multiplier = spec.dust_exposure_multiplier.max(10_000);
@@ -67,9 +76,26 @@ fn strat(w: CWeights, min_ops: usize, max_ops: usize) -> impl Strategy<Value = C
 					*v = (*v).max(100_000);
 				}
 			}
+			if two {
+				spec.topo = Topology::Line3Parallel;
+				spec.value_sat = vec![spec.value_sat[0].max(300_000)];
+				let send = |route: u16, amt: u64| COp::FwdReady(FwdSend { route, amt: FwdAmt::Base(Amt::Abs(amt)), fee_adj: 0, delta_adj: 0, final_delta: 70 });
+				// routes 2 and 3 (of 4) of a Line3Parallel world: node 2 -> node 0 over channel 1 resp. channel 2, then channel 0
+				let mut head = vec![
+					send(40_000, a1),
+					send(60_000, a2),
+					COp::ClaimThen { pay: 0, k: k1, then: Disturb::AsyncUp },
+					COp::ClaimThen { pay: 65535, k: k2, then: Disturb::AsyncUp },
+					// (the next hop can only send the second fulfil once B has answered the first commitment_signed)
+					COp::Pump,
+					COp::CompleteB { which },
+					COp::Pump,
+				];
+				head.extend(ops.into_iter().take(12));
+				return Case { spec, ops: head, resolutions };
+			}
 			Case { spec, ops, resolutions }
-		},
-	)
+		})
 }
 
 /// What one executed history looked like (for labels / non-triviality).
